@@ -14,10 +14,16 @@ ANCHORS = [
     ("lib/sqlalchemy/engine/base.py", "Connection._exec_insertmany_context"),
     ("lib/sqlalchemy/sql/compiler.py", "_InsertManyValues"),
     ("lib/sqlalchemy/sql/compiler.py", "_InsertManyValuesBatch"),
+    # where has_upsert_bound_parameters comes from, and the ORM bulk insert that runs one executemany
+    # per key set and splices the results
+    ("lib/sqlalchemy/sql/compiler.py", "SQLCompiler.visit_bindparam"),
+    ("lib/sqlalchemy/dialects/sqlite/base.py", "SQLiteCompiler.visit_on_conflict_do_update"),
+    ("lib/sqlalchemy/orm/persistence.py", "_emit_insert_statements"),
 ]
 
 # ------------------------------------------------------------------------------------------------
-# case format (a tree):   [cfg, mask, sent_pos, rowspec, tuples, keys, fault, setup]
+# case format (a tree):   [cfg, mask, sent_pos, rowspec, tuples, keys, fault, setup, post]
+#                   or:   [100, sbo, keysets, names, orm_setup]      (ORM bulk insert, see _impl_orm)
 # cfg = everything the two anchored functions read from the compiled statement, the dialect and the
 # execution options.  The implementation side builds a real table + statement (from `setup`) and
 # ECHOES what it finds in the real objects, so a wrong generator table shows up as a disagreement.
@@ -31,17 +37,21 @@ CFG_FIELDS = [
 # sent_pos : positions of the sentinel values inside a parameter tuple ([] = none)
 # rowspec  : the RETURNING row the database produces for a parameter set, column by column:
 #            [0] autoincrement id (= global index + 1 on a fresh table) ; [1, j] tuple[j] ;
-#            [2, j] tuple[j] + first non-VALUES parameter of the *statement* ; [3] NULL (-1)
+#            [2, j] tuple[j] + first non-VALUES parameter of the *statement* ; [3] NULL (-1) ;
+#            [4] the first non-VALUES parameter of the statement (upsert: SET d = :newd)
 # tuples   : the DBAPI parameter sets as canonical ints, in positiontup / key order
 # keys     : one int per parameter set; the database returns the rows of each statement stably
 #            sorted by it (so: any permutation per batch)
 # fault    : [] | [kind, idx, val]   1 drop the row of parameter set idx ; 2 replace its last column
 #            by val ; 3 return it twice
-# setup    : [style, dopt, pstyle, upsert, extra, wo_returning, default_only, d_first, return_defaults]
+# post     : [] | [1] = report the (key, value) pairs the table holds afterwards (upserts over existing rows)
+# setup    : [style, dopt, pstyle, upsert, extra, wo_returning, default_only, d_first, return_defaults, conflict]
+#            upsert: 0 none | 1 SET d = excluded.d | 2 SET d = :newd | 3 same, d has a TypeDecorator with
+#            bind_expression | 4 SET d = excluded.d + :sfx ; conflict: every key exists before the call
 #            (ignored by the model).  return_defaults: the statement uses .return_defaults(sort_by_parameter_order=..)
 #            and `rows` are result.inserted_primary_key_rows, each joined with the d value the table holds for that key
 #
-# observation:  [cfg echo, mask echo, batches, status, rows, inserted]
+# observation:  [cfg echo, mask echo, batches, status, rows, inserted, table]
 #   batch   = [current_batch_size, batchnum, total_batches, rows_sorted, is_downgraded,
 #              params, groups, numbers, counters]
 #             params  : replaced_parameters (named: [key index, i | -1, value] sorted by (i, key))
@@ -70,7 +80,10 @@ RULE = (
     "row loss / duplicate / wrong sentinel (guards); insertmanyvalues_max_parameters is also enforced by "
     "the database (sqlite3 setlimit). quick: above 8 rows 2 (above 20 rows 1) of the 9 style combinations per (n, page) "
     "in rotation, paramstyles in rotation; thorough: full product. "
-    "non-trivial = more than one batch and a non-identity return permutation"
+    "ORM bulk insert through session.execute(insert(Entity).returning(..)) with all key-set sequences of "
+    "length <= 4 over 3 key sets + random longer ones; upserts over fresh and over existing keys with "
+    "SET d = excluded.d / :param / :param behind a bind_expression TypeDecorator / excluded.d + :param. "
+    "non-trivial = more than one batch and a non-identity return permutation (ORM: more than one key set)"
 )
 TRUSTED = [
     "hand-written Gallina transcription of SQLCompiler._deliver_insertmanyvalues_batches, "
@@ -312,6 +325,21 @@ def _gen_source(repo):
         if must not in dsrc:
             raise _T2Error("statement no longer present: " + must)
 
+    with open(os.path.join(repo, "lib/sqlalchemy/orm/persistence.py")) as fh:
+        emit = find_node(ast.parse(fh.read()), "_emit_insert_statements")
+    esrc = ast.unparse(emit)
+    for must in ("return_result = None", "return_result = return_result.splice_vertically(result)",
+                 "return_result = result", "return _cursor.null_dml_result()", "set(rec[2])", "in groupby(insert,"):
+        if must not in esrc:
+            raise _T2Error("statement no longer present in _emit_insert_statements: " + must)
+    splice_ifs = [n for n in ast.walk(emit) if isinstance(n, ast.If) and ast.unparse(n.test) == "return_result is None"]
+    if not any(
+        len(n.body) == 1 and ast.unparse(n.body[0]) == "return_result = result"
+        and len(n.orelse) == 1 and ast.unparse(n.orelse[0]) == "return_result = return_result.splice_vertically(result)"
+        for n in splice_ifs
+    ):
+        raise _T2Error("the per-group result splice of _emit_insert_statements changed")
+
     return """(* generated by specs/c12.py translate() from the current source - do not edit *)
 From Coq Require Import ZArith Bool List.
 From SAV.sql Require Import IMV.
@@ -428,8 +456,10 @@ def _layout(sname, pstyle, extra, upsert, defonly, want_sentinel=True):
     xnames = []
     if extra:
         xnames.append("off")
-    if upsert == 2:
+    if upsert in (2, 3):
         xnames.append("newd")
+    elif upsert == 4:
+        xnames.append("sfx")
     if PSTYLES[pstyle].startswith("numeric"):
         order = xnames + vnames
     else:
@@ -439,7 +469,7 @@ def _layout(sname, pstyle, extra, upsert, defonly, want_sentinel=True):
 
 def make_case(rng, style, dopt=0, pstyle=0, sbo=1, returning=1, upsert=0, extra=0, mv=1, defmeta=1,
               defonly=0, page=1000, maxp=32700, n=5, perm="rand", fault=None, wo_ret=0, kind="grid", dupsent=False,
-              dfirst=0, retdef=0):
+              dfirst=0, retdef=0, conflict=0):
     sname = STYLES[style]
     named = int(PSTYLES[pstyle] == "named")
     numeric = int(PSTYLES[pstyle].startswith("numeric"))
@@ -472,7 +502,7 @@ def make_case(rng, style, dopt=0, pstyle=0, sbo=1, returning=1, upsert=0, extra=
     total = nvalues_binds + len(xnames)
     cfg = [
         is_default_expr, int(defmeta), int(mv), int(returning), int(nsc == 0), int(upsert > 0), embed,
-        int(upsert == 2), page, maxp, total, per_batch, int(returning), int(bool(sbo and returning)),
+        int(upsert >= 2), page, maxp, total, per_batch, int(returning), int(bool(sbo and returning)),
         nsc, implicit, has_keys, named, 0 if named else nvalues_binds, numeric,
     ]
     mask = [1 if nm in vnames else 0 for nm in order]
@@ -487,7 +517,7 @@ def make_case(rng, style, dopt=0, pstyle=0, sbo=1, returning=1, upsert=0, extra=
     offs = [7] * n if extra == 1 else [10 * rng.randint(0, 9) for _ in range(n)]
     tuples = []
     for i in range(n):
-        vals = {"d": ds[i], "off": offs[i], "newd": ds[i], "a": ids[i], "b": us[i]}
+        vals = {"d": ds[i], "off": offs[i], "newd": 500 + 7 * i, "sfx": 1000 * (i + 1), "a": ids[i], "b": us[i]}
         if sname == "multibind":
             vals = {"a": ds[i], "b": 1, "c": 2, "off": offs[i]}
         if sname == "sentinel":
@@ -501,7 +531,11 @@ def make_case(rng, style, dopt=0, pstyle=0, sbo=1, returning=1, upsert=0, extra=
         tuples.append([vals[nm] for nm in order])
     # the row the database returns
     dname = "a" if sname == "multibind" else "d"
-    if defonly:
+    if conflict and upsert in (2, 3):
+        D = [4]             # the row existed: d := :newd
+    elif conflict and upsert == 4:
+        D = [2, pos["d"]]   # d := excluded.d + :sfx
+    elif defonly:
         D = [3]
     elif extra:
         D = [2, pos[dname]]
@@ -530,11 +564,11 @@ def make_case(rng, style, dopt=0, pstyle=0, sbo=1, returning=1, upsert=0, extra=
         keys = [n - i for i in range(n)]
     else:
         keys = [rng.randint(0, 3 * n + 1) for _ in range(n)]
-    setup = [style, dopt, pstyle, upsert, extra, wo_ret, int(defonly), int(dfirst), int(retdef)]
+    setup = [style, dopt, pstyle, upsert, extra, wo_ret, int(defonly), int(dfirst), int(retdef), int(conflict)]
     # multibind over the (enforced) limit: the database rejects the statement - the concrete database
     # of IMVRun.v has no parameter limit, so these cases are oracle-only
     over = bool(sname == "multibind" and maxp and n >= 2 and len(xnames) + min(page, maxp - (total - per_batch), n) * 3 > maxp)
-    return {"in": [cfg, mask, sent_pos, ret, tuples, keys, list(fault or []), setup], "kind": kind,
+    return {"in": [cfg, mask, sent_pos, ret, tuples, keys, list(fault or []), setup, [1] if conflict else []], "kind": kind,
             "model": n >= 2 and not over}
 
 
@@ -577,11 +611,15 @@ def gen_cases(rng, tier):
                 for sbo in (0, 1):
                     cases.append(make_case(rng, 0, dopt=dopt, pstyle=ps, sbo=sbo, defonly=1, defmeta=defmeta, page=2,
                                            n=5, perm="rev", kind="default-values"))
-        for upsert in (1, 2):
+        # upserts: fresh keys and keys that all exist already (then every parameter set must be applied
+        # with ITS OWN SET value: bound parameter, bound parameter behind a bind_expression type, bound
+        # parameter nested in an expression) - batched only without such a parameter
+        for upsert in (1, 2, 3, 4):
             for sbo in (0, 1):
                 for page in (2, 1000):
-                    cases.append(make_case(rng, 5, pstyle=ps, sbo=sbo, upsert=upsert, page=page, n=5, perm="rev",
-                                           kind="upsert"))
+                    for conflict in (0, 1):
+                        cases.append(make_case(rng, 5, pstyle=ps, sbo=sbo, upsert=upsert, page=page, n=5, perm="rev",
+                                               conflict=conflict, kind="upsert"))
         for style, dopt in ((0, 0), (0, 1), (5, 0), (1, 0)):
             cases.append(make_case(rng, style, dopt=dopt, pstyle=ps, returning=0, wo_ret=1, page=3, n=7,
                                    kind="no-returning"))
@@ -623,6 +661,26 @@ def gen_cases(rng, tier):
         for dopt, sbo in ((0, 0), (1, 1)):
             for page, maxp in ((2, 32700), (4, 0), (3, 40), (4, 12), (4, 10), (1000, 20)):
                 cases.append(make_case(rng, 8, dopt=dopt, pstyle=ps, sbo=sbo, page=page, maxp=maxp, n=9, kind="multibind"))
+    # 4c. ORM bulk insert with an ORM-enabled insert(): heterogeneous key sets (one executemany per run
+    #     of equal key sets, results spliced), with / without sort_by_parameter_order, page sizes,
+    #     rows and entities; all key-set sequences of length <= 4 over 3 key sets + longer random ones
+    import itertools
+
+    g = 0
+    for n in (1, 2, 3, 4):
+        for ks in itertools.product((0, 1, 3), repeat=n):
+            g += 1
+            cases.append(make_orm_case(rng, ks, sbo=1 if g % 4 else 0, page=[1, 2, 1000][g % 3], dopt=g % 2,
+                                       pstyle=g % 4, ent=(g // 2) % 2))
+    for _ in range(400 if tier == "thorough" else 60):
+        n = rng.randint(2, 12)
+        ks, cur = [], rng.randrange(4)
+        for _i in range(n):
+            if rng.random() < 0.4:
+                cur = rng.randrange(4)
+            ks.append(cur)
+        cases.append(make_orm_case(rng, ks, sbo=rng.choice([1, 1, 0]), page=rng.choice([1, 2, 3, 1000]),
+                                   dopt=rng.randrange(2), pstyle=rng.randrange(4), ent=rng.randrange(2)))
     # 5. random larger ones
     nrand = 4000 if tier == "thorough" else 120
     for _ in range(nrand):
@@ -638,6 +696,8 @@ def gen_cases(rng, tier):
 
 
 def nontrivial(c):
+    if c["in"][0] == 100:
+        return len(set(c["in"][2])) > 1
     cfg = _cfg(c)
     n = len(c["in"][4])
     keys = c["in"][5]
@@ -726,7 +786,7 @@ def _build(setup):
     from sqlalchemy.dialects import sqlite as sqlite_d
     from sqlalchemy.sql.compiler import InsertmanyvaluesSentinelOpts as O
 
-    style, dopt, pstyle, upsert, extra, wo_ret, defonly, dfirst, retdef = setup
+    style, dopt, pstyle, upsert, extra, wo_ret, defonly, dfirst, retdef, conflict = setup
     sname = STYLES[style]
     ps = PSTYLES[pstyle]
     if ps == "qmark":
@@ -765,7 +825,19 @@ def _build(setup):
         t = sa.Table("t", md, C("id", sa.String, primary_key=True, server_default=sa.text("(lower(hex(randomblob(8))))")),
                      C("d", I))
     elif sname in ("clientpk", "omitpk"):
-        t = sa.Table("t", md, C("id", I, primary_key=True, autoincrement=False), C("d", I))
+        dtype = I
+        if upsert == 3:
+            class AbsInt(sa.TypeDecorator):
+                """an integer the database wraps in a function (the mechanism of geometry-style types)"""
+
+                impl = sa.Integer
+                cache_ok = True
+
+                def bind_expression(self, bindvalue):
+                    return sa.func.abs(bindvalue)
+
+            dtype = AbsInt
+        t = sa.Table("t", md, C("id", I, primary_key=True, autoincrement=False), C("d", dtype))
     else:
         raise ValueError(sname)
     ins = sqlite_d.insert(t) if upsert else sa.insert(t)
@@ -781,9 +853,11 @@ def impl(c):
 
     if not _ENV.get("ready"):
         impl_setup()
-    cfg, mask, sent_pos, rowspec, tuples, keys, fault, setup = c["in"]
+    if c["in"][0] == 100:
+        return _impl_orm(c)
+    cfg, mask, sent_pos, rowspec, tuples, keys, fault, setup, post = c["in"]
     C = dict(zip(CFG_FIELDS, cfg))
-    style, dopt, pstyle, upsert, extra, wo_ret, defonly, dfirst, retdef = setup
+    style, dopt, pstyle, upsert, extra, wo_ret, defonly, dfirst, retdef, conflict = setup
     sname = STYLES[style]
     n = len(tuples)
     named = PSTYLES[pstyle] == "named"
@@ -817,8 +891,10 @@ def impl(c):
         stmt = stmt.values(d=sa.func.coalesce(sa.bindparam("a"), sa.bindparam("b"), sa.bindparam("c")))
     if upsert == 1:
         stmt = stmt.on_conflict_do_update(index_elements=[t.c.id], set_={"d": stmt.excluded.d})
-    elif upsert == 2:
+    elif upsert in (2, 3):
         stmt = stmt.on_conflict_do_update(index_elements=[t.c.id], set_={"d": sa.bindparam("newd")})
+    elif upsert == 4:
+        stmt = stmt.on_conflict_do_update(index_elements=[t.c.id], set_={"d": stmt.excluded.d + sa.bindparam("sfx")})
     if sname == "composite":
         pkcols = [t.c.a, t.c.b]
     elif sname == "none":
@@ -889,12 +965,14 @@ def impl(c):
         return len(gs), numbers, counters
 
     status = 0
-    rows_out, inserted, batches = [], [], []
+    rows_out, inserted, batches, table = [], [], [], []
     echo = [[], []]
     _default.DefaultExecutionContext.fetchall_for_returning = patched_fetch
     try:
         with eng.connect() as conn:
             md.create_all(conn)
+            if conflict:
+                conn.execute(t.insert(), [{"id": tp[pos["id"]], "d": 0} for tp in tuples])
             if C["max_params"] > 0:
                 # let the database enforce the limit the dialect declares (as SQL Server does with 2100)
                 import sqlite3
@@ -982,7 +1060,14 @@ def impl(c):
             else:
                 # what is in the table now (same transaction), in insertion order
                 allrows = conn.execute(sa.select(t.c.d).order_by(sa.text("rowid"))).all()
-                if defonly:
+                if post:
+                    table = [[_canon(v) for v in r] for r in conn.execute(sa.select(t.c.id, t.c.d).order_by(t.c.id)).all()]
+                    if status != 0:
+                        table = []
+                if sname == "clientpk":
+                    iix = {tp[pos["id"]]: i for i, tp in enumerate(tuples)}
+                    inserted = sorted(iix.get(r[0], -1) for r in conn.execute(sa.select(t.c.id)).all())
+                elif defonly:
                     inserted = list(range(len(allrows)))
                 else:
                     dix = {tp[pos["a" if sname == "multibind" else "d"]]: i for i, tp in enumerate(tuples)}
@@ -991,13 +1076,112 @@ def impl(c):
     finally:
         _default.DefaultExecutionContext.fetchall_for_returning = orig_fetch
         eng.dispose()
-    return [echo[0], echo[1], batches, status, rows_out, inserted]
+    return [echo[0], echo[1], batches, status, rows_out, inserted, table]
+
+
+def _orm_groups(ks):
+    import itertools
+
+    return [len(list(g)) for _, g in itertools.groupby(ks)]
+
+
+def _impl_orm(c):
+    """ORM bulk insert: session.execute(insert(Item).returning(..), [dicts]) with differing key sets.
+    in = [100, sbo, keysets, names, [page, dopt, pstyle, entities]] ; key set bit 0: qty given, bit 1: note given
+    obs = [rows [[id, name]..] (without sbo: each group's segment sorted by name), table [[id, name]..]]"""
+    import sqlalchemy as sa
+    from sqlalchemy import orm
+    from sqlalchemy.engine import default as _default
+    from sqlalchemy.sql.compiler import InsertmanyvaluesSentinelOpts as O
+
+    if not _ENV.get("ready"):
+        impl_setup()
+    _, sbo, ks, names, (page, dopt, pstyle, ent) = c["in"]
+    ps = PSTYLES[pstyle]
+    url = {"qmark": "sqlite://", "named": "sqlite://", "numeric": "sqlite+pysqlite_numeric://",
+           "numeric_dollar": "sqlite+pysqlite_dollar://"}[ps]
+    kw = {"paramstyle": "named"} if ps == "named" else {}
+    eng = sa.create_engine(url, insertmanyvalues_page_size=page, **kw)
+    if dopt == 1:
+        eng.dialect.insertmanyvalues_implicit_sentinel = O.AUTOINCREMENT
+
+    class Base(orm.DeclarativeBase):
+        pass
+
+    class Item(Base):
+        __tablename__ = "item"
+        id = sa.Column(sa.Integer, primary_key=True)
+        name = sa.Column(sa.Integer, nullable=False)
+        qty = sa.Column(sa.Integer)
+        note = sa.Column(sa.Integer)
+
+    params = []
+    for k, nm in zip(ks, names):
+        d = {"name": nm}
+        if k & 1:
+            d["qty"] = nm + 1
+        if k & 2:
+            d["note"] = nm + 2
+        params.append(d)
+    orig_fetch = _default.DefaultExecutionContext.fetchall_for_returning
+
+    def patched_fetch(self, cursor):
+        return list(reversed(list(orig_fetch(self, cursor))))  # a backend returning rows out of order
+
+    _default.DefaultExecutionContext.fetchall_for_returning = patched_fetch
+    try:
+        Base.metadata.create_all(eng)
+        with orm.Session(eng) as session:
+            if ent:
+                res = session.scalars(sa.insert(Item).returning(Item, sort_by_parameter_order=bool(sbo)), params)
+                rows = [[o.id, o.name] for o in res]
+            else:
+                res = session.execute(sa.insert(Item).returning(Item.id, Item.name, sort_by_parameter_order=bool(sbo)), params)
+                rows = [[r.id, r.name] for r in res.all()]
+            table = [[r.id, r.name] for r in session.execute(sa.select(Item.id, Item.name).order_by(Item.id)).all()]
+            session.rollback()
+    finally:
+        _default.DefaultExecutionContext.fetchall_for_returning = orig_fetch
+        eng.dispose()
+    if not sbo:
+        out, i = [], 0
+        for size in _orm_groups(ks):
+            out += sorted(rows[i: i + size], key=lambda r: r[1])
+            i += size
+        rows = out + rows[i:]
+    return [rows, table]
+
+
+def _oracle_orm(c, obs):
+    _, sbo, ks, names, _setup = c["in"]
+    rows, table = obs
+    held = {r[0]: r[1] for r in table}
+    if sorted(held.values()) != sorted(names) or len(table) != len(names):
+        return "ORM bulk insert: table holds %s, expected each of %s once" % (sorted(held.values()), sorted(names))
+    if len(rows) != len(names):
+        return "ORM bulk insert: %d rows returned for %d parameter sets" % (len(rows), len(names))
+    for r in rows:
+        if held.get(r[0]) != r[1]:
+            return "ORM bulk insert: returned row %s does not match the stored row of its key" % (r,)
+    if sbo:
+        got = [r[1] for r in rows]
+        if got != list(names):
+            return "ORM bulk insert: the n-th returned row does not belong to the n-th parameter set: got %s, expected %s" % (
+                got, list(names))
+    elif sorted(r[1] for r in rows) != sorted(names):
+        return "ORM bulk insert: returned rows are not one per parameter set"
+    return None
+
+
+def make_orm_case(rng, ks, sbo=1, page=1000, dopt=0, pstyle=0, ent=0, kind="orm"):
+    names = rng.sample(range(100, 100 + 4 * len(ks)), len(ks))
+    return {"in": [100, int(sbo), list(ks), names, [page, dopt, pstyle, ent]], "kind": kind}
 
 
 # ------------------------------------------------------------------------------------------------
 # the property itself, on the implementation's observation
 def _expected_rows(c):
-    cfg, mask, sent_pos, rowspec, tuples, keys, fault, setup = c["in"]
+    cfg, mask, sent_pos, rowspec, tuples, keys, fault, setup, post = c["in"]
     nsc = _cfg(c)["num_sentinel"]
     spec = rowspec[: len(rowspec) - nsc] if nsc else rowspec
     out = []
@@ -1011,6 +1195,8 @@ def _expected_rows(c):
                 row.append(tp[s[1]])
             elif s[0] == 2:
                 row.append(tp[s[1]] + ext[0])  # evaluated with the parameter set's OWN value
+            elif s[0] == 4:
+                row.append(ext[0])  # SET d = :newd with the parameter set's OWN value
             else:
                 row.append(NULL)
         out.append(row)
@@ -1018,11 +1204,13 @@ def _expected_rows(c):
 
 
 def oracle(c, obs):
+    if c["in"][0] == 100:
+        return _oracle_orm(c, obs)
     cfg = _cfg(c)
     C = c["in"]
     tuples, fault, sent_pos = C[4], C[6], C[2]
     n = len(tuples)
-    echo, emask, batches, status, rows, inserted = obs
+    echo, emask, batches, status, rows, inserted, table = obs
     if fault:
         return None  # the harness made the database misbehave: outside the property
     if n == 0:
@@ -1051,11 +1239,18 @@ def oracle(c, obs):
                 if r != w:
                     return "returned row %d is %s, the row of parameter set %d is %s" % (i, r, i, w)
         elif sorted(rows) != sorted(want):
-            return "returned rows are not one per parameter set"
+            return "returned rows are not one per parameter set (each with its own values): %s, expected %s" % (
+                sorted(rows), sorted(want))
+        if C[8]:  # the table after an upsert over existing rows = the per-row fold
+            fold = sorted([w[0], w[1]] for w in want)
+            if table != fold:
+                return "table holds %s, applying the parameter sets one by one gives %s" % (table, fold)
     return None
 
 
 def match_finding(c, what):
+    if c["in"][0] == 100:
+        return None
     C = c["in"]
     cfg = _cfg(c)
     setup = C[7]
